@@ -167,6 +167,11 @@ func (s *State) assume(t string) {
 	if t == "true" {
 		return
 	}
+	if strings.Contains(t, "q!") && !strings.Contains(t, "(forall ") && !strings.Contains(t, "(exists ") {
+		// a side fact about a term that mentions a bound variable of a spec quantifier: it cannot be
+		// stated outside the quantifier; drop it (it is only ever a helpful assumption)
+		return
+	}
 	if t == "false" {
 		s.Dead = true
 	}
@@ -238,6 +243,9 @@ func (e *Engine) declare(s *State, prefix, sort string) string {
 func (e *Engine) define(s *State, prefix, sort, term string) string {
 	if isAtom(term) {
 		return term
+	}
+	if strings.Contains(term, "q!") {
+		return term // mentions a bound variable of a spec quantifier: must stay inline
 	}
 	n := e.fresh(prefix)
 	s.add("(define-fun " + n + " () " + sort + " " + term + ")")
